@@ -23,7 +23,7 @@ ASSUMPTIONS = [
   "clk signals are compared with the documented toggle pattern, not with the simulator's clk value",
   "VCD names: scopes 'top' then child field names with [] -> (), signal names relative to the component",
 ]
-QUICK_S = 80
+QUICK_S = 240
 THOROUGH_S = 1200
 
 
